@@ -127,6 +127,8 @@ func (do *ObjectContainer) PutItemAwareByName(name string, itemAware IItemAware)
 
 func (do *ObjectContainer) Clone() map[string]IItem {
 	out := make(map[string]IItem)
+	do.mu.RLock()
+	defer do.mu.RUnlock()
 	for name, item := range do.dataObjects {
 		value := item.Get()
 		if value != nil {
@@ -449,13 +451,14 @@ func (f *FlowDataLocator) PutIItemAwareLocator(name string, locator IItemAwareLo
 func (f *FlowDataLocator) CloneItems(name string) map[string]IItem {
 	out := make(map[string]IItem)
 
-	f.vmu.RLock()
+	// the locators map is guarded by lmu (see PutIItemAwareLocator)
+	f.lmu.RLock()
 	locator, ok := f.locators[name]
 	if !ok {
-		f.vmu.RUnlock()
+		f.lmu.RUnlock()
 		return out
 	}
-	f.vmu.RUnlock()
+	f.lmu.RUnlock()
 
 	return locator.Clone()
 }
